@@ -105,6 +105,22 @@ def build_metamodel(schema, id_generator, opt=None):
     return m
 
 
+_QUOTED = re.compile(r"'(?:''|[^'])*'")
+
+
+def file_form(text, rnd):
+    """the text as some editor would have saved it: Windows line ends, or no line break after the last statement (never
+    where a string value spans lines or the text ends in a comment)"""
+    k = rnd.randint(0, 3)
+    if any('\n' in m.group() for m in _QUOTED.finditer(text)) or '--' in text:
+        return text
+    if k == 2:
+        return text.replace('\n', '\r\n')
+    if k == 3:
+        return text.rstrip('\n')
+    return text
+
+
 class World(object):
     def __init__(self, plan):
         self.schema = plan['schema']
@@ -149,8 +165,8 @@ class World(object):
             elif route == 'files':
                 for k, ch in enumerate(chunks):
                     p = os.path.join(tmp, 'f%d.sql' % k)
-                    with open(p, 'w', encoding='utf-8') as f:
-                        f.write(ch)
+                    with open(p, 'w', encoding='utf-8', newline='') as f:
+                        f.write(file_form(ch, rnd))
                     if k % 2:
                         loader.filename_input(p)
                     else:
@@ -160,10 +176,12 @@ class World(object):
                 paths = []
                 for k, ch in enumerate(chunks):
                     p = os.path.join(tmp, 'f%d.sql' % k)
-                    with open(p, 'w', encoding='utf-8') as f:
-                        f.write(ch)
+                    with open(p, 'w', encoding='utf-8', newline='') as f:
+                        f.write(file_form(ch, rnd))
                     paths.append(p)
-                m = xtuml.load_metamodel(paths if len(paths) > 1 else paths[0])
+                # (a file name, or any iterable of file names)
+                res = paths[0] if len(paths) == 1 else [paths, tuple(paths), iter(paths)][rnd.randint(0, 2)]
+                m = xtuml.load_metamodel(res)
                 m.id_generator = make_generator(self.plan)     # load_metamodel offers no choice of generator
                 return m, loader
             else:
